@@ -9,7 +9,8 @@ CONSTANTS CSizes,     \* client EDNS sizes, NoV (70000) = request without OPT
           Hints,      \* transport's max_response_size_hint, NoV = None
           Lens,       \* total length of the service's response
           OptLens,    \* length of the OPT record in it (0 = none)
-          QLens       \* length of the question section
+          QLens,      \* length of the question section
+          ROpts       \* EDNS options carried by the request's OPT record
 
 VARIABLES cs, done
 vars == <<cs, done>>
@@ -20,8 +21,13 @@ vars == <<cs, done>>
 Feasible(q, l, o) == LET f == l - (12 + q + 15 + o)
                      IN (f = 0 \/ f >= 11) /\ (o \in {0, 11} \/ o >= 15)
 
+\* The request's options (keepalive -- which a server MUST ignore over UDP,
+\* RFC 7828 3.3.1 --, padding, cookie without server part, NSID, an unknown
+\* code, several at once) are part of the case; no operator of the size
+\* discipline looks at them: `Allowed` depends on the advertised size only.
 Cases == {c \in [udp : BOOLEAN, csize : CSizes, hint : Hints, len : Lens,
-                 optlen : OptLens, qlen : QLens] :
+                 optlen : OptLens, qlen : QLens, ropts : ROpts] :
+            /\ (c.csize = NoV => c.ropts = "none")
             /\ Feasible(c.qlen, c.len, c.optlen)
             /\ (~c.udp => c.hint = NoV)}        \* no hint on stream transports
 
@@ -29,7 +35,8 @@ Init == cs \in Cases /\ done = FALSE
 Next == ~done /\ done' = TRUE /\ UNCHANGED cs
 Spec == Init /\ [][Next]_vars
 
-Req(c) == [udp |-> c.udp, edns |-> c.csize # NoV, csize |-> c.csize, qlen |-> c.qlen]
+Req(c) == [udp |-> c.udp, edns |-> c.csize # NoV, csize |-> c.csize, qlen |-> c.qlen,
+           opts |-> c.ropts]
 Svc(c) == [len |-> c.len, optlen |-> c.optlen,
            body |-> c.len - 12 - c.qlen - c.optlen, tc |-> FALSE]
 
@@ -55,7 +62,7 @@ ExpFor(dv, c) ==
 Emit == done => PrintT("CASE " \o ToJson(
    [in  |-> [kind |-> "size", udp |-> cs.udp, edns |-> cs.csize # NoV,
              csize |-> cs.csize, hint |-> cs.hint, qlen |-> cs.qlen,
-             len |-> cs.len, optlen |-> cs.optlen],
+             len |-> cs.len, optlen |-> cs.optlen, ropts |-> cs.ropts],
     exp |-> ExpFor({}, cs),
     dev |-> [D_no_edns_uses_server_hint |-> ExpFor({"D_no_edns_uses_server_hint"}, cs),
              D_trunc_opt_over_limit     |-> ExpFor({"D_trunc_opt_over_limit"}, cs)]]))
